@@ -21,6 +21,12 @@ spec -> code, on old-style Sequence, new-style Sequence and collection-backed
      public Sequence API; str / len / iteration / moltype / parent_coordinates /
      annotation_offset of the result must be what the spec allows, out-of-range
      integer indices must raise IndexError, the receiver must not change;
+  K  construction: every root is also made from each representation of the raw data
+     its constructor takes (bytes, tuple / list of characters, index array, an existing
+     view record or sequence) with the same name and annotation offset; the made
+     object must be the root view (str / len / iter / parent_coordinates /
+     annotation_offset), all calls on the root and a seeded sample of the frame's
+     other edges are replayed from it, and an object handed over must read the same;
   M  in every reached state every public read-only method of the view is compared
      with the same method of a new sequence built from the view's string.
 
@@ -750,6 +756,7 @@ def check(run: Run):
         "SeqViewRead follows the method docstrings: '?' is both degenerate and a gap; count_gaps may or may not count '?' (old and new classes document it differently); "
         "first_gap / gap_maps exist on old-style, __array__ / __bytes__ / to_phylip on new-style sequences only; get_translation outcomes are GeneticCode.tla's (C12), "
         "and old-style include_stop=True with trim_stop=True is left to C12's known finding",
+        "construction (action Make): old-style roots are made through the sequence class constructor (cogent3.make_seq only documents str/bytes and returns an existing Sequence unmodified), new-style through MolType.make_seq, collection-backed through make_unaligned_seqs; representations a constructor does not take are counted as representation_not_accepted",
         "collection-backed sequences exist only for offset 0 and non-empty roots; states behind their copy() are not built (copy returns the receiver's own record)",
         "replay counters named unreachable_or_unsupported count (kind, root variant) pairs for which a state cannot be instantiated (collection-backed + offset, states behind a failing call)",
     ]
